@@ -330,18 +330,21 @@ PROPS = {
         "n": {"quick": 1, "thorough": 1},
         "corr": "the live sandbox's environment graph, walked from Go through tables, keys, metatables, __index chains, function environments, upvalues, "
                 "constants, userdata and the string metatable, every Go function named by its symbol, is regenerated on every run and checked by "
-                "Sandbox.sandbox_ok; escape-attempt, library-write, non-termination and exit-code scripts run in the real sandbox",
+                "Sandbox.sandbox_ok; escape-attempt, library-write, non-termination and exit-code scripts run in the real sandbox; "
+                "InvokeHooksForStage on real repositories vs Sandbox.select_hooks",
         "rule": "1 graph case (about 100 nodes); escape attempts: 12 accessors (global name, getfenv at 6 places, environment of a fresh function, "
                 "string method / member, setfenv) x 5 wrappers (plain, pcall, xpcall, coroutine.wrap, coroutine.resume) x 17 forbidden names (3 for "
                 "string members): each reports whether it obtained a non-nil value; 30 attempts to modify a library table (5 members x 6 routes); "
-                "11 non-terminating scripts under a 1 s timeout (bound: timeout + 8 s); 13 exit-code scripts. Enumerated completely, every case non-trivial",
+                "11 non-terminating scripts under a 1 s timeout (bound: timeout + 8 s); 13 exit-code scripts; 12 policies with 1-4 pre-commit hooks over "
+                "4 principals (and an undefined one), run through InvokeHooksForStage on a real repository for a random signer (4 principals' keys, a "
+                "root key, an unknown key): which hooks ran, with which exit codes. Every case non-trivial",
         "theorems": ["C20_confinement", "C20_closure_contains_every_path", "C20_sandbox_confines_every_program", "C20_library_tables_out_of_reach",
                      "C20_timeout_partial", "C20_timeout_refuted", "C20_non_number_is_failure", "C20_selected_hooks_are_assigned"],
         "trusted": [
             "the edge relation (what a script can obtain from a held value) is a reading of gopher-lua: fields, __index chains, environments, upvalues and constants over-approximated as obtainable; results of allow-listed functions are assumed to be data, fresh objects or values reachable from their arguments - validated only by the escape scripts",
             "the allow-list names gopher-lua and gittuf API functions by Go symbol (API closures by '.api<Name>.func'); a renamed function is reported as not allow-listed",
             "timeouts: partial - the model has atomic steps; the unconditional bound is refuted (K4). Wall-clock measurement with 8 s slack",
-            "hook selection by principal (InvokeHooksForStage) is proved on the model only; it is not exercised on the implementation in this round",
+            "hook selection: principals share no keys in the generated policies (State.GetAllPrincipals is a map, the last principal holding the key wins)",
         ],
         "assumptions": ["a fresh LuaEnvironment is created per script (as InvokeHooksForStage does)"],
         "exhaustive": True,
